@@ -1,5 +1,368 @@
-/- Model for C05 (core Lean only, no Mathlib). -/
+/-
+Model for C05 — the parallel (dask) COG writer: layout rule, tile enumeration, the level
+loop of the empty-header writer, header patching from the observed tile stream, the
+write order.  Core Lean only (no Mathlib).
+
+Mirrors, function by function (odc-geo at the `fix-C05` branch):
+
+  odc/geo/math.py           align_down, align_up, align_down_pow2
+  odc/geo/cog/_shared.py    adjust_blocksize, norm_blocksize, num_overviews,
+                            compute_cog_spec, CogMeta.{chunked,num_tiles,tidx,
+                            flat_tile_idx,cog_tidx,num_planes}, yaxis_from_shape
+  odc/geo/cog/_tifffile.py  _make_empty_cog (axis / nsamples / level loop, GeoBox zoom),
+                            _cog_block_compressor_* (padding amounts), _pad_to_cog_shape,
+                            _extract_tile_info, _patch_hdr (offset shift by header size),
+                            save_cog_with_dask (default blocksize, `_tiles[::-1]` order)
+
+Shapes and block sizes are `Nat` (the code receives positive Python ints; a block size of 0
+makes tifffile reject the call and is outside the model).  A `Shape2d` is `YX` = (y, x);
+a tuple block `(b1, b2)` is (y, x) as `shape_(tuple)` reads it.
+
+NOT modelled here (other owners): the multi-part byte stream (`MPUChunk`, `mpu_write`) is
+C06 — its main theorem `C06.main` ("the bytes handed to the writer, concatenated in part
+order, equal header ++ tiles in stream order") is what turns the *stream order* of this
+file into *file offsets*; the harness checks that end-to-end on every written file.
+-/
 import OdcGeo.Model.IO
+import OdcGeo.Model.Affine
 namespace OdcGeo.C05
+
+/-- `Shape2d` as (y, x) -/
+structure YX where
+  y : Nat
+  x : Nat
+  deriving DecidableEq, Repr
+
+/-! ### math.py: align_down / align_up / align_down_pow2 (105-147) -/
+
+/-- `x - (x % align)` -/
+def alignDown (x a : Nat) : Nat := x - x % a
+
+/-- `align_down(x + (align - 1), align)` -/
+def alignUp (x a : Nat) : Nat := alignDown (x + (a - 1)) a
+
+/-- largest power of two `≤ x` by doubling (`fuel` doublings at most), for `x ≥ 1` -/
+def pow2Below : Nat → Nat → Nat → Nat
+  | 0, p, _ => p
+  | fuel + 1, p, x => if 2 * p ≤ x then pow2Below fuel (2 * p) x else p
+
+/-- `align_down_pow2(x)`: largest `2**n ≤ x`; the code returns 1 for `x ≤ 0` (`align_up_pow2`
+gives 1, which is not `> x` only when `x ≥ 1`, so for 0 it halves to 0).  The code goes
+through `ceil(log2(x))` in doubles, which is exact far beyond any `max_pad` in use. -/
+def alignDownPow2 (x : Nat) : Nat := if x = 0 then 0 else pow2Below x 1 x
+
+/-! ### _shared.py: adjust_blocksize, norm_blocksize (146-158) -/
+
+/-- `adjust_blocksize(block, dim=0)` -/
+def adjustBlocksize (block : Nat) (dim : Nat := 0) : Nat :=
+  if 0 < dim ∧ dim < block then alignUp dim 16 else alignUp block 16
+
+/-- a user block size: `int` or `(by, bx)` -/
+inductive Blk where
+  | one (b : Nat)
+  | two (b1 b2 : Nat)
+  deriving DecidableEq, Repr
+
+/-- `norm_blocksize(block)` read as (y, x) -/
+def normBlocksize : Blk → YX
+  | .one b => ⟨adjustBlocksize b, adjustBlocksize b⟩
+  | .two b1 b2 => ⟨adjustBlocksize b1, adjustBlocksize b2⟩
+
+/-! ### _shared.py: num_overviews (161-166) — `while block < dim: dim //= 2; c += 1` -/
+
+/-- the loop with an iteration budget; the budget is never the reason to stop when
+`fuel ≥ dim` (theorem `num_overviews_fuel_irrelevant`) -/
+def numOverviewsFuel : Nat → Nat → Nat → Nat
+  | 0, _, _ => 0
+  | fuel + 1, block, dim => if block < dim then numOverviewsFuel fuel block (dim / 2) + 1 else 0
+
+def numOverviews (block dim : Nat) : Nat := numOverviewsFuel dim block dim
+
+/-! ### _shared.py: compute_cog_spec (169-185) -/
+
+/-- `(data_shape, tile_shape, n)` -/
+def computeCogSpec (shape tile : YX) (maxPad : Option Nat := none) : YX × YX × Nat :=
+  let t : YX := ⟨adjustBlocksize tile.y, adjustBlocksize tile.x⟩
+  let n1 := numOverviews t.x shape.x
+  let n2 := numOverviews t.y shape.y
+  let n := max n1 n2
+  let pad0 := 2 ^ n
+  let pad := match maxPad with
+    | none => pad0
+    | some mp => if mp < pad0 then (if mp = 0 then 0 else alignDownPow2 mp) else pad0
+  let sh : YX := if pad > 0 then ⟨alignUp shape.y pad, alignUp shape.x pad⟩ else shape
+  (sh, t, n)
+
+/-- `Shape2d.shrink2` -/
+def shrink2 (s : YX) : YX := ⟨s.y / 2, s.x / 2⟩
+
+/-! ### _shared.py: CogMeta (50-143) -/
+
+/-- the fields of `CogMeta` the layout depends on; `planes` = `num_planes`
+(`nsamples` for SYX, else 1) -/
+structure Meta where
+  planes : Nat
+  shape : YX
+  tile : YX
+  deriving DecidableEq, Repr
+
+/-- `(N + n - 1) // n` per axis -/
+def Meta.chunked (m : Meta) : YX :=
+  ⟨(m.shape.y + m.tile.y - 1) / m.tile.y, (m.shape.x + m.tile.x - 1) / m.tile.x⟩
+
+def Meta.numTiles (m : Meta) : Nat := m.planes * m.chunked.y * m.chunked.x
+
+/-- `tidx(sample_idx)`: `(sample_idx, y, x) for y, x in np.ndindex(chunked)`; the code asserts
+`sample_idx < num_planes` -/
+def Meta.tidxPlane (m : Meta) (s : Nat) : Res (List (Nat × Nat × Nat)) :=
+  if s < m.planes then
+    .ok ((List.range m.chunked.y).flatMap fun y => (List.range m.chunked.x).map fun x => (s, y, x))
+  else .error .assertion
+
+/-- `tidx()`: `np.ndindex((num_planes, ny, nx))` (C order) -/
+def Meta.tidx (m : Meta) : List (Nat × Nat × Nat) :=
+  (List.range m.planes).flatMap fun s =>
+    (List.range m.chunked.y).flatMap fun y => (List.range m.chunked.x).map fun x => (s, y, x)
+
+/-- `sample * (ny * nx) + y * nx + x` -/
+def Meta.flatRaw (m : Meta) (s y x : Nat) : Nat :=
+  s * (m.chunked.y * m.chunked.x) + y * m.chunked.x + x
+
+/-- `flat_tile_idx((sample, y, x))`: `IndexError` unless `0 ≤ i < n` on each axis -/
+def Meta.flatTileIdx (m : Meta) (s y x : Int) : Res Nat :=
+  if s < 0 ∨ s ≥ m.planes ∨ y < 0 ∨ y ≥ m.chunked.y ∨ x < 0 ∨ x ≥ m.chunked.x then
+    .error .indexError
+  else .ok (m.flatRaw s.toNat y.toNat x.toNat)
+
+/-- `cog_tidx()` on `flatten()`: levels reversed, `(ifd_idx, plane, iy, ix)` -/
+def cogTidx (ms : List Meta) : List (Nat × Nat × Nat × Nat) :=
+  (ms.zipIdx.reverse).flatMap fun (m, idx) => m.tidx.map fun (p, y, x) => (idx, p, y, x)
+
+/-! ### _shared.py: yaxis_from_shape (213-233, as repaired: a matching GeoBox decides before
+the "last axis is 3 or 4 → RGB(A)" shortcut) -/
+
+inductive Axis where
+  | YX | YXS | SYX
+  deriving DecidableEq, Repr
+
+def Axis.toStr : Axis → String
+  | .YX => "YX" | .YXS => "YXS" | .SYX => "SYX"
+
+def yaxisFromShape (shape : List Nat) (gbox : Option YX) : Res (Axis × Nat) :=
+  match shape with
+  | [_, _] => .ok (.YX, 0)
+  | [a, b, c] =>
+    match gbox with
+    | some g =>
+      if g = ⟨a, b⟩ then .ok (.YXS, 0)
+      else if g = ⟨b, c⟩ then .ok (.SYX, 1)
+      else if c = 3 ∨ c = 4 then .ok (.YXS, 0)
+      else .error .valueError
+    | none => if c = 3 ∨ c = 4 then .ok (.YXS, 0) else .ok (.SYX, 1)
+  | _ => .error .valueError
+
+/-- the pre-repair order of the tests (RGB(A) shortcut first) — kept only to state the
+counterexample `yaxis_prefix_cex` -/
+def yaxisFromShapePreFix (shape : List Nat) (gbox : Option YX) : Res (Axis × Nat) :=
+  match shape with
+  | [_, _] => .ok (.YX, 0)
+  | [a, b, c] =>
+    if c = 3 ∨ c = 4 then .ok (.YXS, 0)
+    else match gbox with
+      | none => .ok (.SYX, 1)
+      | some g =>
+        if g = ⟨a, b⟩ then .ok (.YXS, 0)
+        else if g = ⟨b, c⟩ then .ok (.SYX, 1)
+        else .error .valueError
+  | _ => .error .valueError
+
+/-! ### _tifffile.py: _make_empty_cog (120-244) -/
+
+/-- one IFD of the header: image shape, tile shape, affine of the level's GeoBox -/
+structure Level where
+  shape : YX
+  tile : YX
+  aff : Option Aff
+  deriving DecidableEq, Repr
+
+/-- `GeoBox.zoom_to(shape)` → `compute_zoom_to`: `sy, sx = (N / float(n) ...)`,
+`A = affine * Affine.scale(sx, sy)`; a 0-pixel side divides by zero -/
+def zoomTo (cur : YX) (A : Aff) (new : YX) : Res Aff :=
+  if new.y = 0 ∨ new.x = 0 then .error .zeroDiv
+  else .ok (A * Aff.scale ((cur.x : Rat) / (new.x : Rat)) ((cur.y : Rat) / (new.y : Rat)))
+
+/-- `itertools.chain(iter(blocksize), itertools.repeat(blocksize[-1]))` at position `idx` -/
+def blockAt (bs : List Blk) (last : Blk) (idx : Nat) : Blk :=
+  match bs[idx]? with
+  | some b => b
+  | none => last
+
+/-- the level loop `for tsz, idx in zip(_blocks, range(nlevels + 1))` as repaired (F18):
+shrink and zoom only when another level follows.  `rem` counts the iterations left. -/
+def levelLoop (blk : Nat → Blk) (nlevels : Nat) : Nat → Nat → YX → Option Aff → Res (List Level)
+  | 0, _, _, _ => .ok []
+  | rem + 1, idx, sh, g =>
+    let lvl : Level := ⟨sh, normBlocksize (blk idx), g⟩
+    if idx < nlevels then
+      match g with
+      | none => (levelLoop blk nlevels rem (idx + 1) (shrink2 sh) none).map (lvl :: ·)
+      | some A =>
+        match zoomTo sh A (shrink2 sh) with
+        | .error e => .error e
+        | .ok A' => (levelLoop blk nlevels rem (idx + 1) (shrink2 sh) (some A')).map (lvl :: ·)
+    else (levelLoop blk nlevels rem (idx + 1) sh g).map (lvl :: ·)
+
+/-- the loop before the repair: always `shrink2` + `zoom_to` after writing a level -/
+def levelLoopPreFix (blk : Nat → Blk) : Nat → Nat → YX → Option Aff → Res (List Level)
+  | 0, _, _, _ => .ok []
+  | rem + 1, idx, sh, g =>
+    let lvl : Level := ⟨sh, normBlocksize (blk idx), g⟩
+    match g with
+    | none => (levelLoopPreFix blk rem (idx + 1) (shrink2 sh) none).map (lvl :: ·)
+    | some A =>
+      match zoomTo sh A (shrink2 sh) with
+      | .error e => .error e
+      | .ok A' => (levelLoopPreFix blk rem (idx + 1) (shrink2 sh) (some A')).map (lvl :: ·)
+
+/-- what `_make_empty_cog` decides: axis order, nsamples, `num_planes`, the IFD list -/
+structure Cog where
+  axis : Axis
+  nsamples : Nat
+  planes : Nat
+  nlevels : Nat
+  levels : List Level
+  deriving DecidableEq, Repr
+
+/-- image shape `shape[yaxis : yaxis + 2]` and `nsamples` -/
+def imShape (ax : Axis) (shape : List Nat) : Option (YX × Nat) :=
+  match ax, shape with
+  | .YX, [a, b] => some (⟨a, b⟩, 1)
+  | .YXS, [a, b, c] => some (⟨a, b⟩, c)
+  | .SYX, [a, b, c] => some (⟨b, c⟩, a)
+  | _, _ => none
+
+/-- `_make_empty_cog(shape, dtype, gbox, blocksize=…)`; `gbox` = (shape, affine).
+`blocksize[-1]` of an empty list is an `IndexError`. -/
+def makeEmptyCogWith (loop : (Nat → Blk) → Nat → YX → Option Aff → Res (List Level))
+    (yaxis : List Nat → Option YX → Res (Axis × Nat))
+    (shape : List Nat) (gbox : Option (YX × Aff)) (blocksize : List Blk) : Res Cog :=
+  match yaxis shape (gbox.map (·.1)) with
+  | .error e => .error e
+  | .ok (ax, _) =>
+    match imShape ax shape, blocksize.getLast? with
+    | none, _ => .error .valueError
+    | _, none => .error .indexError
+    | some (im, ns), some last =>
+      let (p, _, n) := computeCogSpec im (normBlocksize last)
+      match loop (blockAt blocksize last) n p (gbox.map (·.2)) with
+      | .error e => .error e
+      | .ok lv => .ok ⟨ax, ns, if ax = .SYX then ns else 1, n, lv⟩
+
+def makeEmptyCog (shape : List Nat) (gbox : Option (YX × Aff)) (blocksize : List Blk) : Res Cog :=
+  makeEmptyCogWith (fun blk n p g => levelLoop blk n (n + 1) 0 p g) yaxisFromShape shape gbox blocksize
+
+def makeEmptyCogPreFix (shape : List Nat) (gbox : Option (YX × Aff)) (blocksize : List Blk) : Res Cog :=
+  makeEmptyCogWith (fun blk n p g => levelLoopPreFix blk (n + 1) 0 p g) yaxisFromShapePreFix
+    shape gbox blocksize
+
+/-- `meta.flatten()` as layout records -/
+def Cog.metas (c : Cog) : List Meta := c.levels.map fun l => ⟨c.planes, l.shape, l.tile⟩
+
+/-- `save_cog_with_dask`: `blocksize = [data_chunks, max(int(max(*data_chunks) // 2), 1)]` when
+unset (as repaired: never 0 for 1-pixel chunks) -/
+def defaultBlocksize (cy cx : Nat) : List Blk := [.two cy cx, .one (max (max cy cx / 2) 1)]
+
+/-! ### _tifffile.py: tile padding (247-305) and `_pad_to_cog_shape` -/
+
+/-- pixels of source extent `N` that fall into tile `i` of size `t` -/
+def blockExtent (N t i : Nat) : Nat := min t (N - i * t)
+
+/-- `pad = (0, want - have)`: nothing before, `want - have` after -/
+def tilePad (N t i : Nat) : Nat × Nat := (0, t - blockExtent N t i)
+
+/-- `_pad_to_cog_shape`: `((0, max(P.y - ny, 0)), (0, max(P.x - nx, 0)))` -/
+def padToCog (src p : YX) : (Nat × Nat) × (Nat × Nat) := ((0, p.y - src.y), (0, p.x - src.x))
+
+/-! ### _tifffile.py: _extract_tile_info (446-465), _patch_hdr (468-500) -/
+
+/-- per IFD `(offsets, byte counts)` -/
+abbrev TileInfo := List (List Nat × List Nat)
+
+/-- `[([0] * m.num_tiles, [0] * m.num_tiles) for m in mm]` -/
+def initInfo (ms : List Meta) : TileInfo :=
+  ms.map fun m => (List.replicate m.numTiles 0, List.replicate m.numTiles 0)
+
+/-- `b_lengths[tidx] = sz; b_offsets[tidx] = byte_offset` in IFD `l` -/
+def updInfo (info : TileInfo) (l f off sz : Nat) : TileInfo :=
+  match info[l]? with
+  | none => info
+  | some (os, ns) => info.set l (os.set f off, ns.set f sz)
+
+/-- an observed tile: `(scale_idx, p, y, x, sz)` -/
+structure Obs where
+  lvl : Nat
+  p : Int
+  y : Int
+  x : Int
+  sz : Nat
+  deriving DecidableEq, Repr
+
+/-- flat index of an observed tile: `mm[scale_idx]` then `flat_tile_idx` (both `IndexError`) -/
+def obsKey (ms : List Meta) (t : Obs) : Res (Nat × Nat) :=
+  match ms[t.lvl]? with
+  | none => .error .indexError
+  | some m =>
+    match m.flatTileIdx t.p t.y t.x with
+    | .error e => .error e
+    | .ok f => .ok (t.lvl, f)
+
+/-- one iteration of the loop over `tiles` -/
+def extractStep (ms : List Meta) (st : TileInfo × Nat) (t : Obs) : Res (TileInfo × Nat) :=
+  match obsKey ms t with
+  | .error e => .error e
+  | .ok (l, f) =>
+    if t.sz ≠ 0 then .ok (updInfo st.1 l f st.2 t.sz, st.2 + t.sz) else .ok st
+
+/-- the loop from an arbitrary state -/
+def extractLoop (ms : List Meta) : TileInfo × Nat → List Obs → Res (TileInfo × Nat)
+  | st, [] => .ok st
+  | st, t :: ts =>
+    match extractStep ms st t with
+    | .error e => .error e
+    | .ok st' => extractLoop ms st' ts
+
+/-- `_extract_tile_info(meta, tiles, start_offset)` -/
+def extractTileInfo (ms : List Meta) (tiles : List Obs) (start : Nat := 0) : Res TileInfo :=
+  (extractLoop ms (initInfo ms, start) tiles).map (·.1)
+
+/-- `_patch_hdr`: `tile_info` from offset 0, every offset entry shifted by the header size
+(also the entries of unobserved / empty tiles), byte counts as is -/
+def patchHdr (ms : List Meta) (tiles : List Obs) (hdrSz : Nat) : Res TileInfo :=
+  (extractTileInfo ms tiles 0).map fun info => info.map fun (os, ns) => (os.map (· + hdrSz), ns)
+
+/-- `(offsets, counts)` entry of tile `f` of IFD `l` -/
+def look (info : TileInfo) (l f : Nat) : Option (Nat × Nat) :=
+  match info[l]? with
+  | none => none
+  | some (os, ns) =>
+    match os[f]?, ns[f]? with
+    | some o, some n => some (o, n)
+    | _, _ => none
+
+/-! ### _tifffile.py: save_cog_with_dask (667-689): order in which tiles are streamed -/
+
+/-- `_tiles` is built level by level (0 first), plane by plane, each bag in `tidx(sample)`
+order; `tiles_write_order = _tiles[::-1]` (concatenating the first four bags and
+repartitioning keep the order).  Result: `(scale_idx, plane, iy, ix)` in stream order. -/
+def writeOrder (ms : List Meta) : List (Nat × Nat × Nat × Nat) :=
+  match ms with
+  | [] => []
+  | m0 :: _ =>
+    let bags : List (List (Nat × Nat × Nat × Nat)) :=
+      ms.zipIdx.flatMap fun (m, l) =>
+        (List.range m0.planes).map fun s =>
+          (List.range m.chunked.y).flatMap fun y =>
+            (List.range m.chunked.x).map fun x => (l, s, y, x)
+    bags.reverse.flatten
 
 end OdcGeo.C05
